@@ -26,7 +26,7 @@ PROP = 'C14'
 ALPHABET = ['a', 'b', 'c']
 BEYOND_ALPHABET = ['a', 'b', 'c', 'd', 'E_1']
 HOSTILE = ['a', 'Z', '_', '7', '.', ':', ' ', '\n', 'é', '٣', '-', '\t']
-EXTRA_HOSTILE = ['\r', '\x00', 'ª', 'Ａ', '​', 'Ⅷ', '$', '0']
+EXTRA_HOSTILE = ['\r', '\x00', '\u00aa', '\uff21', '\u200b', '\u2167', '$', '0']
 ID_CHARS = ['a', 'Z', '_', '7']
 LAYOUTS = ['nested-merged', 'nested-reopened', 'multi-id', 'mixed']
 MAX_WITNESSES = 3          # witness records per mechanism and case
@@ -245,8 +245,8 @@ def build_model(decls, layout: int, nest_types: bool):
     return model, table
 
 
-def index_filecontents(fct, table) -> dict:
-    """id(parsed declaration) -> tag, for every object in the seven findable containers.
+def index_filecontents(fct, table):
+    """({id(parsed declaration): tag}, {tag: object}) over the seven findable containers.
     The monitor cannot judge lookups when parsing lost or invented declarations (that is C05)."""
     kind_of_tag = {tag: kind for kind, _, tag in table}
     by_id, objects = {}, {}
@@ -538,7 +538,7 @@ def hostile_document(text: str) -> str:
     return json.dumps(M.to_json(model))
 
 
-def check_parser(scoping, json_ast, text: str, tally: Tally, case: dict):
+def check_parser(json_ast, text: str, tally: Tally, case: dict):
     """Whatever the parser hands out for a candidate name must consist of identifiers only."""
     try:
         with common.quiet():
@@ -562,7 +562,6 @@ def check_parser(scoping, json_ast, text: str, tally: Tally, case: dict):
     if bad:
         tally.note('parser:handed-out-invalid-identifier',
                    {'string': text, 'offence': offence(text), 'got': bad[:3]}, case)
-    del scoping
 
 
 def eval_ident(case: dict) -> dict:
@@ -596,7 +595,7 @@ def eval_ident(case: dict) -> dict:
         judge_construct(scoping, 'ns_ids_t_str', lambda t=text: scoping.ns_ids_t(t),
                         converted, facts, tally, one)
         if case.get('parse') or pos % 10 == 0:
-            check_parser(scoping, json_ast, text, tally, one)
+            check_parser(json_ast, text, tally, one)
     total = len(case['strings'])
     sample = {'part': case.get('part', 'ident'), 'strings': total, 'valid': n_valid,
               'first': case['strings'][:8]}
@@ -638,7 +637,8 @@ def _valid(tally: Tally, case: dict, via: str, value):
 
 def check_notation(scoping, left, right, third, tally: Tally, case: dict):
     """All notation and concatenation laws for the identifier lists left, right, third."""
-    make = lambda ids: scoping.NamespaceIds(items=list(ids))  # pylint: disable=C3001
+    def make(ids):
+        return scoping.NamespaceIds(items=list(ids))
 
     def trip(step, expected, thunk):
         tally.count('roundtrips')
@@ -822,6 +822,8 @@ def valid_ids(maxlen: int) -> list:
 def expand(case: dict) -> dict:
     """Turn a small descriptor (what the driver hands to the workers) into an explicit case."""
     part = case['part']
+    if any(key in case for key in ('decls', 'strings', 'lists', 'queries')):
+        return case                                     # already explicit (a replayed case)
     rng = random.Random(f'{PROP}:{case.get("seed")}:{part}:{case.get("stream")}')
     if part == 'lookup-small':
         index = case['index']
